@@ -30,9 +30,11 @@ impl NotificationHandler<DidOpenTextDocument> for DidOpenTextDocumentHandler {
 
 impl NotificationHandler<DidChangeTextDocument> for DidChangeTextDocumentHandler {
     fn handle(&self, ctx: &mut LspContext, params: DidChangeTextDocumentParams) -> MosResult<()> {
-        let text_changes = params.content_changes.first().unwrap();
-        register_document(ctx, &params.text_document.uri, &text_changes.text);
-        publish_diagnostics(ctx)?;
+        // (a change notification may come without any changes)
+        if let Some(text_changes) = params.content_changes.first() {
+            register_document(ctx, &params.text_document.uri, &text_changes.text);
+            publish_diagnostics(ctx)?;
+        }
         Ok(())
     }
 }
